@@ -42,7 +42,8 @@ ASSUME = {
         "(the segment structure is read back from the muxer after the run)",
         "Low-Latency runs use a wall clock that is linear in media time (the date of an open segment is extrapolated by the client from "
         "the previous one); the other variants use drifting / jumping wall clocks",
-        "tolerances as stated by the property: +-1 tick, 1 ms (+2 ticks) for AbsoluteTime",
+        "tolerances as stated by the property: +-1 tick, 1 ms (+2 ticks) for AbsoluteTime; Low-Latency: + 250 us for the 10 us text "
+        "resolution of the durations the client adds up to date a part",
     ],
 }
 
@@ -818,6 +819,10 @@ def annotate_e2e(run):
                     want = anchor[1] + (Fraction(wd, rt) - Fraction(anchor[0], rl)) * 1000000
                     e = d["abs"] - want
                     tol = 1000 + Fraction(2 * 1000000, rt) + 2
+                    if variant == "ll":
+                        # the date of a part is extrapolated from the previous segment's date-time (1 ms text resolution) plus the
+                        # listed durations of that segment and of the parts before it (10 us text resolution each)
+                        tol += 250
                     d["da"] = 0 if abs(e) <= tol else (clip(round(e)) or 1)
                     # MPEG-TS: position in the byte stream = order of the Write calls
                     early = True
